@@ -203,6 +203,35 @@ func runC03(c *mon.Ctx) {
 	versions := sortedVersions()
 	n := c.Scale(64, 12000)
 	for k := 0; k < n; k++ {
+		// one proto-event built for one room version after the other (same signer, same instant): every version derives
+		// the ID from ITS redaction of the event, whatever was built before in this process
+		if t10 := ref.Traits("10"); t10 != nil {
+			ps := genProto(r, t10)
+			if ps.Depth > 9007199254740991 {
+				ps.Depth = 7
+			}
+			c.Case("same-proto-across-versions", map[string]any{"proto": ps, "content": string(ps.Content)}, func() {
+				for _, ver := range versions {
+					t := ref.Traits(string(ver))
+					if t == nil || t.Domainless || t.EventIDFormat < 2 || ver == gmsl.RoomVersionPseudoIDs {
+						continue
+					}
+					ev, err := buildEvent(ver, ps, id, baseTime)
+					if err != nil {
+						continue
+					}
+					c.Count("built_same_proto_across_versions")
+					if want := ref.EventID(t, ref.MustParse(ev.JSON())); want != ev.EventID() {
+						c.Failf("id:not-reference-hash:same-proto-built-for-another-version-before", "v%s: EventID() = %s, reference = %s for a proto-event that was built for other room versions just before\n%s", ver, ev.EventID(), want, ev.JSON())
+						return
+					}
+					if u, err := gmsl.MustGetRoomVersion(ver).NewEventFromUntrustedJSON(ev.JSON()); err == nil && u.EventID() != ev.EventID() {
+						c.Failf("roundtrip:untrusted:event_id", "v%s: re-parse gives %s, built %s", ver, u.EventID(), ev.EventID())
+						return
+					}
+				}
+			})
+		}
 		for _, ver := range versions {
 			t := ref.Traits(string(ver))
 			if t == nil {
@@ -318,6 +347,25 @@ func runC03(c *mon.Ctx) {
 				}
 				u, err := impl.NewEventFromUntrustedJSON(j)
 				check("untrusted", u, err)
+				if vr.Chance(0.15) {
+					// the proto-event's unsigned is caller-supplied raw JSON as well: with a repeated member name in it, Build
+					// refuses, or builds something that re-parses
+					ps3 := ps
+					ps3.Unsigned = []byte(gen.Pick(vr, []string{`{"age":1,"age":2}`, `{"a":{"b":1,"b":2}}`, `{"prev_content":{"x":1},"prev_content":{"x":2}}`}))
+					var ev3 gmsl.PDU
+					var err3 error
+					site, msg, pan := mon.Guard(func() { ev3, err3 = buildEvent(ver, ps3, id, baseTime) })
+					c.Count("built_with_duplicates_in_unsigned")
+					if pan {
+						c.Failf("build:panic:"+site, "Build panics on a proto-event whose unsigned repeats a member: %s", msg)
+					} else if err3 == nil {
+						if u3, perr := impl.NewEventFromUntrustedJSON(ev3.JSON()); perr != nil {
+							c.Failf("roundtrip:untrusted:error:proto-unsigned-repeats-a-member", "Build(v%s) accepts a proto-event with unsigned %s, and the event it builds is refused as untrusted input: %v", ver, ps3.Unsigned, perr)
+						} else if u3.EventID() != ev3.EventID() {
+							c.Failf("roundtrip:untrusted:event_id", "event built with unsigned %s re-parses under another ID", ps3.Unsigned)
+						}
+					}
+				}
 				if vr.Chance(0.25) {
 					// the proto-event brings a "signatures" member of its own (the make_join template of another server is
 					// such a proto-event): whatever Build makes of it re-parses; refusing is an answer too, except for a
